@@ -4,6 +4,7 @@ import PteraModel.Driver.Selector
 import PteraModel.Driver.Handlers
 import PteraModel.Driver.Lifecycle
 import PteraModel.Driver.Ctx
+import PteraModel.Driver.Sched
 open Lean
 
 def dispatch (j : Json) : Json :=
@@ -11,6 +12,8 @@ def dispatch (j : Json) : Json :=
   | "tools" => Ptera.Driver.Tools.handle j
   | "lex" | "ptree" | "parse" | "select0" | "hashvar" => Ptera.Driver.Selector.handle j
   | "handlers" => Ptera.Driver.Handlers.handle j
+  | "sched" => Ptera.Driver.Sched.handle j
+  | "sched_run" => Ptera.Driver.Sched.handleRun j
   | "ctx" => Ptera.Driver.Ctx.handle j
   | "lifecycle" => Ptera.Driver.Lifecycle.handle j
   | "tagmatch" => Ptera.Driver.Handlers.handleTag j
